@@ -69,3 +69,72 @@ fn vx_reach_table()
 }
 // @@END vx_reach_table''' % dict(Tb=Tb, E=E, k0=k0.ident, k1=k1.ident, exp=('9u8' if k0 is k1 else '3u8'))
     return '\n'.join(pre), plan, {}, lem
+
+# ---------------------------------------------------------------------------------------
+# Kani twins on the real derive (slot type u8 / Option<u8> / Result<u8, u8>, every value symbolic; the key symbolic over the
+# enabled variants).  Loop-free, full domain for this slot type: stand-ins when the generated table leaves Verus' subset,
+# and additional evidence in the thorough tier.
+
+def kani_module(prog):
+    E = prog.name
+    Tb = E + 'Table'
+    en = prog.enabled()
+    dis = [v for v in prog.variants if v.disabled]
+    n = len(en)
+    keys = ', '.join('%s::%s' % (E, v.ident) for v in en)
+    code_arms = ' '.join('%s::%s => %du8,' % (E, v.ident, 3 * i + 1) for i, v in enumerate(prog.variants))
+    newargs = ', '.join('v[%d]' % i for i in range(n))
+    out = []
+    hs = []
+    def H(name, body, attrs=''):
+        out.append('    #[kani::proof]\n%s    fn %s() {\n%s\n    }' % (attrs, name, body))
+        hs.append((name, name))
+    H('tbl_new_index', '''        let v: [u8; N] = kani::any();
+        let t = %s::new(%s);
+        let i: usize = kani::any(); kani::assume(i < N);
+        assert!(t[KEYS[i]] == v[i]);''' % (Tb, newargs))
+    H('tbl_index_mut_frame', '''        let v: [u8; N] = kani::any();
+        let mut t = %s::new(%s);
+        let i: usize = kani::any(); kani::assume(i < N);
+        let j: usize = kani::any(); kani::assume(j < N);
+        let w: u8 = kani::any();
+        t[KEYS[i]] = w;
+        assert!(t[KEYS[j]] == if i == j { w } else { v[j] });''' % (Tb, newargs))
+    H('tbl_filled_closure_transform', '''        let x: u8 = kani::any();
+        let f = %s::filled(x);
+        let c = %s::from_closure(|k| code(k));
+        let v: [u8; N] = kani::any();
+        let t = %s::new(%s);
+        let u = t.transform(|k, old| old.wrapping_mul(7).wrapping_add(code(k)));
+        let i: usize = kani::any(); kani::assume(i < N);
+        assert!(f[KEYS[i]] == x);
+        assert!(c[KEYS[i]] == code(KEYS[i]));
+        assert!(u[KEYS[i]] == v[i].wrapping_mul(7).wrapping_add(code(KEYS[i])));''' % (Tb, Tb, Tb, newargs))
+    H('tbl_all', '''        let v: [Option<u8>; N] = kani::any();
+        let t = %s::new(%s);
+        let mut all_some = true; let mut i = 0; while i < N { if v[i].is_none() { all_some = false; } i += 1; }
+        let r = t.all();
+        assert!(r.is_some() == all_some);
+        if let Some(tt) = r { let j: usize = kani::any(); kani::assume(j < N); assert!(Some(tt[KEYS[j]]) == v[j]); }''' % (Tb, newargs), '    #[kani::unwind(%d)]\n' % (n + 2))
+    H('tbl_all_ok', '''        let v: [Result<u8, u8>; N] = kani::any();
+        let t = %s::new(%s);
+        let mut first_err: Option<u8> = None; let mut i = 0; while i < N { if first_err.is_none() { if let Err(e) = v[i] { first_err = Some(e); } } i += 1; }
+        let r = t.all_ok();
+        match (r, first_err) {
+            (Err(e), Some(f)) => assert!(e == f),
+            (Ok(tt), None) => { let j: usize = kani::any(); kani::assume(j < N); assert!(Ok(tt[KEYS[j]]) == v[j]); }
+            _ => assert!(false),
+        }''' % (Tb, newargs), '    #[kani::unwind(%d)]\n' % (n + 2))
+    for v in dis:
+        H('tbl_disabled_%s_panics' % v.ident, '        let t = %s::filled(0u8);\n        let _ = t[%s::%s];' % (Tb, E, v.ident), '    #[kani::should_panic]\n')
+    text = '''
+#[cfg(kani)]
+mod vx_proofs {
+    use super::*;
+    const N: usize = %d;
+    const KEYS: [%s; N] = [%s];
+    fn code(k: %s) -> u8 { match k { %s } }
+%s
+}
+''' % (n, E, keys, E, code_arms, '\n'.join(out))
+    return text, hs
